@@ -55,7 +55,10 @@ CONSTANTS NGates,          \* NGates[p]: LogValuer gates in the record of proces
           RebindOnLarge,   \* reset() replaces a large buffer by a new one (the TextHandler keeps the old)
           Fault,           \* Fault[p]: 0 ok, 1 Write returns (0, err), 2 short write with err, 3 Write panics
           DeferUnlock,     \* the mutex is released by a deferred call (also when Write panics)
-          StickyError      \* after a Write error the shared encoder fails every later Encode
+          StickyError,     \* after a Write error the shared encoder fails every later Encode
+          Ctx,             \* Ctx[p]: the context of p's call: 0 never done, 2 done before the call,
+                           \* 5 cancelled by the environment while the call waits for the mutex
+          CtxAwareLock     \* FALSE: plain mutex; TRUE: acquired with a select on ctx.Done() - may give the record up
 
 NP == Len(NGates)
 Procs == 1..NP
@@ -74,9 +77,10 @@ VARIABLES pc, buf, g, msg, enc, chunks,   \* per process
           inWrite,                        \* processes inside w.Write
           stream,                         \* everything the writer accepted, in order
           ret,                            \* per process: how Handle ended ("" running, "ok", "error", "stale", "panic")
-          encErr                          \* the shared encoder has a remembered error
+          encErr,                         \* the shared encoder has a remembered error
+          cancelled                       \* per process: its context is done
 
-vars == <<pc, buf, g, msg, enc, chunks, free, created, hb, tb, arr, blen, large, lock, inWrite, stream, ret, encErr>>
+vars == <<pc, buf, g, msg, enc, chunks, free, created, hb, tb, arr, blen, large, lock, inWrite, stream, ret, encErr, cancelled>>
 
 Init ==
     /\ pc = [p \in Procs |-> "start"]
@@ -95,6 +99,7 @@ Init ==
     /\ stream = <<>>
     /\ ret = [p \in Procs |-> ""]
     /\ encErr = FALSE
+    /\ cancelled = [p \in Procs |-> Ctx[p] = 2]
 
 (* sync.Pool: Get returns any pooled item or makes a new one. *)
 PoolGet(p) ==
@@ -104,7 +109,7 @@ PoolGet(p) ==
          /\ free' = free \ {b}
          /\ created' = created \cup {b}
     /\ pc' = [pc EXCEPT ![p] = "got"]
-    /\ UNCHANGED <<g, msg, enc, chunks, hb, tb, arr, blen, large, lock, inWrite, stream, ret, encErr>>
+    /\ UNCHANGED <<g, msg, enc, chunks, hb, tb, arr, blen, large, lock, inWrite, stream, ret, encErr, cancelled>>
 
 (* reset(): truncate the buffer (capacity and backing array are kept). *)
 Reset(p) ==
@@ -116,14 +121,14 @@ Reset(p) ==
               /\ UNCHANGED hb
     /\ g' = [g EXCEPT ![p] = NGates[p]]
     /\ pc' = [pc EXCEPT ![p] = IF NGates[p] > 0 THEN "valuer" ELSE "torender"]
-    /\ UNCHANGED <<buf, msg, enc, chunks, free, created, tb, arr, large, lock, inWrite, stream, ret, encErr>>
+    /\ UNCHANGED <<buf, msg, enc, chunks, free, created, tb, arr, large, lock, inWrite, stream, ret, encErr, cancelled>>
 
 (* Leaving a LogValuer gate. *)
 Valuer(p) ==
     /\ pc[p] = "valuer"
     /\ g' = [g EXCEPT ![p] = @ - 1]
     /\ pc' = [pc EXCEPT ![p] = IF g[p] = 1 THEN "torender" ELSE "valuer"]
-    /\ UNCHANGED <<buf, msg, enc, chunks, free, created, hb, tb, arr, blen, large, lock, inWrite, stream, ret, encErr>>
+    /\ UNCHANGED <<buf, msg, enc, chunks, free, created, hb, tb, arr, blen, large, lock, inWrite, stream, ret, encErr, cancelled>>
 
 (* bytes.Buffer.Write at the current length: overwrites what the backing array *)
 (* held there and extends it when needed.                                      *)
@@ -151,14 +156,14 @@ Render(p) ==
                     /\ IF PutAfterWrite
                          THEN UNCHANGED <<free, buf>>
                          ELSE free' = free \cup {i} /\ buf' = [buf EXCEPT ![p] = 0]
-    /\ UNCHANGED <<g, enc, chunks, created, hb, tb, lock, inWrite, stream, ret, encErr>>
+    /\ UNCHANGED <<g, enc, chunks, created, hb, tb, lock, inWrite, stream, ret, encErr, cancelled>>
 
 Lock(p) ==
     /\ pc[p] = "rendered"
     /\ lock = 0
     /\ lock' = p
     /\ pc' = [pc EXCEPT ![p] = "locked"]
-    /\ UNCHANGED <<buf, g, msg, enc, chunks, free, created, hb, tb, arr, blen, large, inWrite, stream, ret, encErr>>
+    /\ UNCHANGED <<buf, g, msg, enc, chunks, free, created, hb, tb, arr, blen, large, inWrite, stream, ret, encErr, cancelled>>
 
 (* The pooled bytes are read here, not when msg was cut. *)
 Encode(p) ==
@@ -174,13 +179,13 @@ Encode(p) ==
               /\ lock' = IF WriteUnderLock THEN lock ELSE 0
               /\ pc' = [pc EXCEPT ![p] = "encoded"]
               /\ UNCHANGED ret
-    /\ UNCHANGED <<buf, g, msg, free, created, hb, tb, arr, blen, large, inWrite, stream, encErr>>
+    /\ UNCHANGED <<buf, g, msg, free, created, hb, tb, arr, blen, large, inWrite, stream, encErr, cancelled>>
 
 WriteBegin(p) ==
     /\ pc[p] = "encoded"
     /\ inWrite' = inWrite \cup {p}
     /\ pc' = [pc EXCEPT ![p] = "writing"]
-    /\ UNCHANGED <<buf, g, msg, enc, chunks, free, created, hb, tb, arr, blen, large, lock, stream, ret, encErr>>
+    /\ UNCHANGED <<buf, g, msg, enc, chunks, free, created, hb, tb, arr, blen, large, lock, stream, ret, encErr, cancelled>>
 
 (* The end of a Write call: the writer takes the bytes, fails, or panics. *)
 WriteEnd(p) ==
@@ -201,13 +206,30 @@ WriteEnd(p) ==
               /\ ret' = [ret EXCEPT ![p] = "panic"]
               /\ pc' = [pc EXCEPT ![p] = IF DeferUnlock THEN "written" ELSE "unlocked"]
               /\ UNCHANGED <<stream, chunks, encErr>>
-    /\ UNCHANGED <<buf, g, msg, enc, free, created, hb, tb, arr, blen, large, lock>>
+    /\ UNCHANGED <<buf, g, msg, enc, free, created, hb, tb, arr, blen, large, lock, cancelled>>
+
+(* The environment cancels the context of a call that waits for the mutex. *)
+Cancel(p) ==
+    /\ Ctx[p] = 5 /\ ~cancelled[p]
+    /\ pc[p] = "rendered" /\ lock # 0
+    /\ cancelled' = [cancelled EXCEPT ![p] = TRUE]
+    /\ UNCHANGED <<pc, buf, g, msg, enc, chunks, free, created, hb, tb, arr, blen, large, lock, inWrite, stream, ret, encErr>>
+
+(* A lock acquired with "select { case sem <- x: ; case <-ctx.Done(): }" may   *)
+(* take the context's side whenever the context is done - also when the lock   *)
+(* is free: the record is dropped, Handle returns the context's error.         *)
+GiveUp(p) ==
+    /\ CtxAwareLock /\ cancelled[p]
+    /\ pc[p] = "rendered"
+    /\ ret' = [ret EXCEPT ![p] = "dropped"]
+    /\ pc' = [pc EXCEPT ![p] = "unlocked"]
+    /\ UNCHANGED <<buf, g, msg, enc, chunks, free, created, hb, tb, arr, blen, large, lock, inWrite, stream, encErr, cancelled>>
 
 Unlock(p) ==
     /\ pc[p] = "written"
     /\ lock' = IF lock = p THEN 0 ELSE lock
     /\ pc' = [pc EXCEPT ![p] = "unlocked"]
-    /\ UNCHANGED <<buf, g, msg, enc, chunks, free, created, hb, tb, arr, blen, large, inWrite, stream, ret, encErr>>
+    /\ UNCHANGED <<buf, g, msg, enc, chunks, free, created, hb, tb, arr, blen, large, inWrite, stream, ret, encErr, cancelled>>
 
 PoolPut(p) ==
     /\ pc[p] = "unlocked"
@@ -215,13 +237,13 @@ PoolPut(p) ==
          THEN free' = free \cup {buf[p]} /\ buf' = [buf EXCEPT ![p] = 0]
          ELSE UNCHANGED <<free, buf>>
     /\ pc' = [pc EXCEPT ![p] = "done"]
-    /\ UNCHANGED <<g, msg, enc, chunks, created, hb, tb, arr, blen, large, lock, inWrite, stream, ret, encErr>>
+    /\ UNCHANGED <<g, msg, enc, chunks, created, hb, tb, arr, blen, large, lock, inWrite, stream, ret, encErr, cancelled>>
 
 Step(p) == \/ PoolGet(p) \/ Reset(p) \/ Valuer(p) \/ Render(p) \/ Lock(p) \/ Encode(p)
-           \/ WriteBegin(p) \/ WriteEnd(p) \/ Unlock(p) \/ PoolPut(p)
+           \/ WriteBegin(p) \/ WriteEnd(p) \/ Unlock(p) \/ PoolPut(p) \/ GiveUp(p)
 
 AllDone == \A p \in Procs : pc[p] \in {"done", "panicked"}
-Next == (\E p \in Procs : Step(p)) \/ (AllDone /\ UNCHANGED vars)
+Next == (\E p \in Procs : Step(p) \/ Cancel(p)) \/ (AllDone /\ UNCHANGED vars)
 Spec == Init /\ [][Next]_vars /\ \A p \in Procs : WF_vars(Step(p))
 
 ----------------------------------------------------------------------------
